@@ -254,11 +254,13 @@ func runC05(x *core.Ctx) {
 	// long repeated sections
 	type pair struct{ small, big int64 }
 	scaling := map[string]*pair{}
-	for _, n := range []int{1000, 10000} {
-		for _, lf := range longFamilies(n) {
-			if !x.Mine() {
-				continue
-			}
+	fams := map[int][]longFrame{1000: longFamilies(1000), 10000: longFamilies(10000)}
+	for fi := range fams[1000] {
+		if !x.Mine() {
+			continue
+		}
+		for _, n := range []int{1000, 10000} {
+			lf := fams[n][fi]
 			if x.Expired() {
 				return
 			}
